@@ -11,6 +11,7 @@ import (
 
 	"verif/fw"
 	"verif/gen"
+	"verif/mon"
 	"verif/sim"
 	"verif/trk"
 
@@ -154,7 +155,7 @@ func run(c *fw.Ctx, idx int) {
 		p := api.PinCid(cids[i])
 		p.Name = fmt.Sprintf("n%d", i)
 		p.Mode = f.mode
-		p.MaxDepth = f.mode.ToPinDepth()
+		p.MaxDepth = mon.DepthOf(f.mode)
 		switch f.entry {
 		case "local":
 			p.ReplicationFactorMin, p.ReplicationFactorMax = 1, 2
